@@ -7,6 +7,7 @@ import (
 
 	"seehuhn.de/go/postscript/funit"
 	"seehuhn.de/go/sfnt/glyph"
+	"seehuhn.de/go/sfnt/opentype/classdef"
 	"seehuhn.de/go/sfnt/opentype/coverage"
 	"seehuhn.de/go/sfnt/opentype/gtab"
 	"seehuhn.de/go/sfnt/opentype/gtab/builder"
@@ -238,6 +239,114 @@ func genGsubLookup(r *vlib.Rand, n int, ty int) *gtab.LookupTable {
 			}
 		}
 		l.Subtables = []gtab.Subtable{&gtab.Gsub4_1{Cov: covFromList(cov), Repl: repl}}
+	}
+	return l
+}
+
+func genActs(r *vlib.Rand) []gtab.SeqLookup {
+	var out []gtab.SeqLookup
+	for k := r.Range(0, 3); k > 0; k-- {
+		out = append(out, gtab.SeqLookup{LookupListIndex: gtab.LookupIndex(vlib.Pick(r, []int{0, 1, 2, 7, 65535})), SequenceIndex: uint16(vlib.Pick(r, []int{0, 1, 2, 3, 65535}))})
+	}
+	return out
+}
+
+// genClasses makes k non-empty, pairwise disjoint, ascending glyph lists
+func genClasses(r *vlib.Rand, n, k int) [][]glyph.ID {
+	perm := make([]int, n)
+	for i := range perm {
+		perm[i] = i
+	}
+	for i := n - 1; i > 0; i-- {
+		j := r.Intn(i + 1)
+		perm[i], perm[j] = perm[j], perm[i]
+	}
+	var out [][]glyph.ID
+	pos := 0
+	for i := 0; i < k && pos < n; i++ {
+		m := r.Range(1, 3)
+		if pos+m > n {
+			m = n - pos
+		}
+		var c []glyph.ID
+		for _, x := range perm[pos : pos+m] {
+			c = append(c, glyph.ID(x))
+		}
+		sort.Slice(c, func(a, b int) bool { return c[a] < c[b] })
+		out = append(out, c)
+		pos += m
+	}
+	return out
+}
+
+func classTable(cc [][]glyph.ID) classdef.Table {
+	t := classdef.Table{}
+	for i, c := range cc {
+		for _, g := range c {
+			t[g] = uint16(i + 1)
+		}
+	}
+	return t
+}
+
+func setOf(l []glyph.ID) coverage.Set {
+	s := coverage.Set{}
+	for _, g := range l {
+		s[g] = true
+	}
+	return s
+}
+
+// genCtxLookup makes a GSUB5 lookup in the parser's normal form
+func genCtxLookup(r *vlib.Rand, n int) *gtab.LookupTable {
+	l := &gtab.LookupTable{Meta: &gtab.LookupMetaInfo{LookupType: 5, LookupFlags: vlib.Pick(r, flagSets)}}
+	for k := r.Range(1, 3); k > 0; k-- {
+		switch r.Intn(3) {
+		case 0:
+			cov := subset(r, n, 0, r.Bool())
+			st := &gtab.SeqContext1{Cov: covFromList(cov)}
+			for range cov {
+				var rules []*gtab.SeqRule
+				for j := r.Range(1, 3); j > 0; j-- {
+					rules = append(rules, &gtab.SeqRule{Input: randGids(r, n, 0, 3), Actions: genActs(r)})
+				}
+				st.Rules = append(st.Rules, rules)
+			}
+			l.Subtables = append(l.Subtables, st)
+		case 1:
+			var cov []glyph.ID
+			if !r.Chance(1, 8) {
+				cov = subset(r, n, 0, r.Bool())
+			}
+			cc := genClasses(r, n, r.Range(0, 3))
+			st := &gtab.SeqContext2{Cov: covFromList(cov), Input: classTable(cc)}
+			st.Rules = make([][]*gtab.ClassSeqRule, len(cc)+1)
+			total := 0
+			for total == 0 {
+				for c := range st.Rules {
+					st.Rules[c] = nil
+					for j := r.Range(0, 2); j > 0; j-- {
+						in := make([]uint16, r.Range(0, 3))
+						for x := range in {
+							in[x] = uint16(r.Intn(len(cc) + 1))
+						}
+						st.Rules[c] = append(st.Rules[c], &gtab.ClassSeqRule{Input: in, Actions: genActs(r)})
+						total++
+					}
+				}
+			}
+			l.Subtables = append(l.Subtables, st)
+		case 2:
+			st := &gtab.SeqContext3{Actions: genActs(r)}
+			for j := r.Range(1, 3); j > 0; j-- {
+				var set []glyph.ID
+				if !r.Chance(1, 8) {
+					set = subset(r, n, 0, r.Bool())
+				}
+				st.Input = append(st.Input, setOf(set))
+			}
+			l.Subtables = append(l.Subtables, st)
+		}
 	}
 	return l
 }
@@ -814,7 +923,7 @@ func (g *textGen) lookup(ty string) {
 }
 
 var allTypes = []string{"GSUB1", "GSUB2", "GSUB3", "GSUB4", "GSUB5", "GSUB6", "GPOS1", "GPOS2", "GPOS3", "GPOS4"}
-var modelTypes = []string{"GSUB1", "GSUB2", "GSUB3", "GSUB4", "GPOS1"}
+var modelTypes = []string{"GSUB1", "GSUB2", "GSUB3", "GSUB4", "GSUB5", "GPOS1"}
 
 func genText(r *vlib.Rand, fs *fontSpec, types []string, table string) string {
 	g := &textGen{r: r, fs: fs, valid: !r.Chance(1, 6)}
